@@ -433,6 +433,15 @@ func (rl *respDeserializer) getDouble(line string) (value respDouble, valid bool
 	return respDouble(value64), true
 }
 
+// aggregates cannot be map keys or set members (they are not comparable in go)
+func respComparable(v respValue) bool {
+	switch v.data.(type) {
+	case respArray, respMap, respSet, respAttributeMap, respPush, respPairs:
+		return false
+	}
+	return true
+}
+
 // an aggregate cannot have more elements than there are bytes left (every element takes at
 // least three); a larger declared count is incomplete or absurd input, never an allocation size
 func (rl *respDeserializer) plausibleCount(count int) bool {
@@ -468,6 +477,10 @@ func (rl *respDeserializer) getNextMap(pairs int) (value respMap, valid bool) {
 			return
 		}
 		k = respNormalizeKey(k)
+		if !respComparable(k) {
+			valid = false
+			return
+		}
 		if v, valid = rl.getNextValue(); !valid {
 			return
 		}
@@ -490,6 +503,10 @@ func (rl *respDeserializer) getNextAttributeMap(pairs int) (value respAttributeM
 			return
 		}
 		k = respNormalizeKey(k)
+		if !respComparable(k) {
+			valid = false
+			return
+		}
 		if v, valid = rl.getNextValue(); !valid {
 			return
 		}
@@ -512,6 +529,10 @@ func (rl *respDeserializer) getNextSet(count int) (value respSet, valid bool) {
 			return
 		}
 		v = respNormalizeKey(v)
+		if !respComparable(v) {
+			valid = false
+			return
+		}
 		s[v] = struct{}{}
 	}
 
@@ -608,6 +629,10 @@ func (rl *respDeserializer) getNextDynamicMap() (value respMap, valid bool) {
 			return m, true
 		}
 		k = respNormalizeKey(k)
+		if !respComparable(k) {
+			valid = false
+			return
+		}
 		if v, valid = rl.getNextValue(); !valid {
 			return
 		}
@@ -629,6 +654,10 @@ func (rl *respDeserializer) getNextDynamicAttributeMap() (value respAttributeMap
 		}
 
 		k = respNormalizeKey(k)
+		if !respComparable(k) {
+			valid = false
+			return
+		}
 		if v, valid = rl.getNextValue(); !valid {
 			return
 		}
@@ -649,6 +678,10 @@ func (rl *respDeserializer) getNextDynamicSet() (value respSet, valid bool) {
 			return s, true
 		}
 		v = respNormalizeKey(v)
+		if !respComparable(v) {
+			valid = false
+			return
+		}
 		s[v] = struct{}{}
 	}
 }
